@@ -8,7 +8,7 @@ CONSTANTS
   Outcomes = {"ok", "err"}
   MaxYield = 1
   EnvOps <- EnvOpsSelf
-  KillCarriesState = TRUE
+  KillCarriesState = FALSE
   Once = TRUE
   Local = {}
   MonPairs <- MonPairsSelf
